@@ -183,14 +183,16 @@ example : ∃ s, Reach code (Cfg.ofFunc 10) s ∧ s.cons = .inner ∧ s.batch = 
 /-- **A source error is reported after the items that preceded it** (C08): when `Next` reports the
 source's error, the source did fail and every item it handed out before failing has been returned in
 a batch; the error is never replaced by the normal end (and `End` is reported only for a source that
-ended normally). -/
+ended normally); and once the error (or the end) has been reported no later `Next` returns a batch. -/
 theorem batch_error_after_items {cfg : Cfg} {s : State} (h : Reach code cfg s) :
     (.srcErr ∈ s.results → s.srcTerm = some .err ∧ (batchesOf s.results).flatten = s.pulled) ∧
     (s.srcTerm = some .err → .endOK ∉ s.results) ∧
-    (.endOK ∈ s.results → s.srcTerm = some .eof) := by
+    (.endOK ∈ s.results → s.srcTerm = some .eof) ∧
+    ((.srcErr ∈ s.results ∨ .endOK ∈ s.results) →
+      ∀ l s', step code cfg s l = some s' → batchesOf s'.results = batchesOf s.results) := by
   have h2 := inv2_reach (reach_good h)
   have h3 := inv3_reach (reach_good h)
-  refine ⟨?_, ?_, h3.r2⟩
+  refine ⟨?_, ?_, h3.r2, ?_⟩
   · intro he
     refine ⟨h3.r3 he, ?_⟩
     have := (h3.r1 _ he (Or.inr rfl)).2.2
@@ -200,6 +202,14 @@ theorem batch_error_after_items {cfg : Cfg} {s : State} (h : Reach code cfg s) :
     have := h3.r2 hend
     rw [he] at this
     cases this
+  · intro hterm l s' hs
+    have hdone : s.bpc = .done := by
+      rcases hterm with he | he
+      · exact h3.e1 (h3.r1 _ he (Or.inr rfl)).1
+      · exact h3.e1 (h3.r1 _ he (Or.inl rfl)).1
+    rw [code_is_good] at hs
+    cases l <;> unfold_step at hs <;> (repeat' split at hs) <;> cases hs <;>
+      first | rfl | (simp; done) | (simp_all; done) | (rename_i hflush; rw [hdone] at hflush; cases hflush) | grind
 
 example : ∃ s, Reach code (Cfg.ofBatch 10 2) s ∧ s.results = [.batch [7], .srcErr] ∧ s.pulled = [7] :=
   ⟨_, reach_of_run Reach.init
